@@ -120,7 +120,7 @@ def ex_prim(ctx, fn, lam, w, meta=True, layout="C"):
                         {"exec": "prim", "args": {"fn": fn, "lam": lam, "w": w}}, observed={"base": float(base), lab: float(v)}, tags={"fn": fn, "meta": lab})
 
 
-def ex_e2e(ctx, case, test="BS", num_sim=4, seed=1, layout="C", inject=False):
+def ex_e2e(ctx, case, test="BS", num_sim=4, seed=1, layout="C", inject=False, scale=None):
     be, br = _mods()
     fore, cat, reg, w = gridcases.build(case)
     rates = numpy.array(case["rates"], dtype=float)
@@ -128,7 +128,11 @@ def ex_e2e(ctx, case, test="BS", num_sim=4, seed=1, layout="C", inject=False):
         fore._data = numpy.asfortranarray(fore._data)
     elif layout == "T":
         fore._data = numpy.ascontiguousarray(fore._data.T).T
-    rc = {"exec": "e2e", "args": {"case": case, "test": test, "num_sim": num_sim, "seed": seed, "layout": layout, "inject": inject}}
+    if scale is not None:
+        # history: the forecast was re-scaled (scale / scale_to_test_date) before the test; the rates in force are data = _data * _scale
+        fore.scale(scale)
+        rates = rates * scale
+    rc = {"exec": "e2e", "args": {"case": case, "test": test, "num_sim": num_sim, "seed": seed, "layout": layout, "inject": inject, "scale": scale}}
     ctx.current_case = rc
     if test == "BS":
         fn, mod, lam, wobs = be.binary_spatial_test, be, rates.sum(axis=1), w.sum(axis=1)
@@ -136,7 +140,7 @@ def ex_e2e(ctx, case, test="BS", num_sim=4, seed=1, layout="C", inject=False):
         fn, mod, lam, wobs = be.binary_conditional_likelihood_test, be, rates, w
     else:
         fn, mod, lam, wobs = br.brier_score_test, br, rates, w
-    tags = {"test": test, "has_zero_rate": bool(numpy.any(lam == 0)),
+    tags = {"test": test, "has_zero_rate": bool(numpy.any(lam == 0)), "scaled": scale is not None,
             "zero_rate_active_bin": bool(numpy.any((numpy.asarray(lam) == 0) & (numpy.asarray(wobs) > 0)))}
     n_active = int((numpy.asarray(wobs) > 0).sum())
     from .c06 import _feasible_binary
@@ -264,5 +268,6 @@ def run(ctx):
         r = ctx.rng("c16e", j)
         case = gridcases.gen_case(r, max_cells=30, max_mag=5, max_events=40, rate_lo=-9, rate_hi=1, events_in_zero=(j % 6 == 0))
         for test in ("BS", "BCL", "BR"):
-            ex_e2e(ctx, case, test, num_sim=int(r.choice([1, 3, 5])), seed=int(r.integers(0, 100)), layout=["C", "F", "T"][j % 3], inject=bool(j % 2))
+            ex_e2e(ctx, case, test, num_sim=int(r.choice([1, 3, 5])), seed=int(r.integers(0, 100)), layout=["C", "F", "T"][j % 3], inject=bool(j % 2),
+                   scale=None if j % 4 else float(r.choice([0.25, 0.5, 3.0])))
         ex_maps(ctx, case)
